@@ -12,6 +12,7 @@ import PoetryVerif.Proofs.MarkerEval
 import PoetryVerif.Proofs.MarkerPrintPy
 import PoetryVerif.Proofs.MarkerAlgSoundFullC
 import PoetryVerif.Proofs.MarkerPrint4
+import PoetryVerif.Proofs.MarkerPrintCharsQ
 import PoetryVerif.Proofs.PyConvPairFinal
 import PoetryVerif.Proofs.PyConvPairCompat
 
@@ -375,5 +376,19 @@ theorem print_parse_lists {C : String → Prop}
 /-- `"a" in sys_platform` prints as itself and is a leaf of the printable four-operator domain -/
 example : (M.toStr (.leaf (.single ⟨"sys_platform", "in", "a", true, .gen (.s (.atom ⟨"a", .in_, false⟩))⟩))).toOption =
     some "\"a\" in sys_platform" := by decide +kernel
+
+/-- **Character level with both quote characters** (repo fix 3046ca3: a value holding a double quote is written
+between single quotes): the text of every tree whose items use names and operators of the grammar and WRITABLE
+values parses back to the tree.  Writable (`ValOkQ`): no `"`, `\`, newline — or holding a `"` and no `'`
+(then `\` and newlines are harmless: SINGLE_QUOTED_STRING is `/'([^'])*'/`).  Not writable, and why: a value with
+both quote characters (neither string form of the grammar can carry it, `_quoted` does not escape); a value
+without `"` that holds `\` or a newline (it is written in double quotes, where ESCAPED_STRING treats `\"` as an
+escaped quote and `.` stops at a newline). -/
+theorem print_parse_chars_quotes (t : Syn) (hl : t.LexableQ) : parseText t.text = .ok t := parseText_textQ t hl
+
+/-- `sys_platform == 'a"b\c'` is written in single quotes and read back -/
+example : (Syn.one (.item "sys_platform" "==" "a\"b\\c" false)).LexableQ ∧
+    (Syn.one (.item "sys_platform" "==" "a\"b\\c" false)).text = "sys_platform == 'a\"b\\c'" := by
+  refine ⟨⟨by decide, by decide, Or.inr ⟨by decide, by decide⟩⟩, by decide⟩
 
 end Poetry.C13
